@@ -21,6 +21,12 @@ pub enum Op {
     Give(u64, u32),
     EchoVec(Vec<Val>),
     OptRes(Option<Val>),
+    /// value sent to the implementation, which passes it through a caller-side closure and returns the result
+    ViaCb(Val),
+    /// value returned through a boxed future
+    Fut(Val),
+    /// the implementation returns a boxed closure; the caller passes the value through it
+    MkCb(Val),
 }
 
 pub struct FamImpl<T> {
@@ -34,6 +40,9 @@ impl<T: Model> FamImpl<T> {
     }
     pub fn see(&self, m: &'static str, x: &T) {
         self.seen.lock().unwrap_or_else(|p| p.into_inner()).push((m, x.to_val()));
+    }
+    pub fn seen_handle(&self) -> Seen {
+        self.seen.clone()
     }
     pub fn make(&self, seed: u64, maxver: u32) -> T {
         T::from_val(&make_val::<T>(seed, maxver))
@@ -53,6 +62,9 @@ pub fn model_call<T: Model>(
     give: impl FnOnce(u64, u32) -> T,
     echo_vec: impl FnOnce(Vec<T>) -> Vec<T>,
     opt_res: impl FnOnce(Option<T>) -> Result<T, String>,
+    via_cb: impl FnOnce(T, &dyn Fn(T) -> T) -> T,
+    fut: impl FnOnce(T) -> std::pin::Pin<Box<dyn std::future::Future<Output = T>>>,
+    mk_cb: impl FnOnce(u32) -> Box<dyn Fn(T) -> T>,
 ) -> Result<Val, String> {
     vcore::util::catch(std::panic::AssertUnwindSafe(|| match op {
         Op::Echo(v) => echo(T::from_val(v)).to_val(),
@@ -63,6 +75,22 @@ pub fn model_call<T: Model>(
             Ok(x) => Val::Ok(Box::new(x.to_val())),
             Err(e) => Val::Err(Box::new(Val::Str(e))),
         },
+        Op::ViaCb(v) => {
+            // the caller-side closure records what it receives and returns it unchanged
+            let cb_seen = std::cell::RefCell::new(vec![]);
+            let r = via_cb(T::from_val(v), &|t: T| {
+                cb_seen.borrow_mut().push(t.to_val());
+                t
+            });
+            Val::Tuple(vec![r.to_val(), Val::Seq(cb_seen.into_inner())])
+        }
+        Op::Fut(v) => crate::c09::block_on(fut(T::from_val(v))).to_val(),
+        Op::MkCb(v) => {
+            let f = mk_cb(1);
+            let r = f(T::from_val(v));
+            drop(f);
+            r.to_val()
+        }
     }))
 }
 
@@ -201,6 +229,78 @@ pub fn run(ctx: &mut Ctx) {
                     }
                 }
             }
+            // ---- closures and futures: every hop is transmitted at the negotiated version
+            // (caller -> implementation -> caller-side closure -> implementation -> caller)
+            if let (Ok(a), ) = (project(&vi, &si, &sj, eff), ) {
+                if let Ok(b) = project(&a, &sj, &si, eff) {
+                    if let (Ok(c), ) = (project(&b, &si, &sj, eff), ) {
+                        if let Ok(d) = project(&c, &sj, &si, eff) {
+                            let mkj = |method: &str, observed: String| {
+                                J::obj(vec![
+                                    ("interface_family", J::s(p.family)),
+                                    ("caller_version", J::i(i)),
+                                    ("implementation_version", J::i(j)),
+                                    ("negotiated_version_expected", J::i(eff)),
+                                    ("method", J::s(method)),
+                                    ("argument", J::s(model::val_brief(&vi, 300))),
+                                    ("implementation_should_see", J::s(model::val_brief(&a, 300))),
+                                    ("caller_side_should_see", J::s(model::val_brief(&b, 300))),
+                                    ("observed", J::s(observed)),
+                                ])
+                            };
+                            // via_cb
+                            ctx.eval();
+                            seen.lock().unwrap().clear();
+                            let res = call(&Op::ViaCb(vi.clone()));
+                            let saw: Vec<(&'static str, Val)> = seen.lock().unwrap().clone();
+                            ctx.distinct(&format!("{}|via_cb|{}", label, model::val_class(&vi)));
+                            let want_saw = vec![("via_cb", a.clone()), ("via_cb_ret", c.clone())];
+                            let want_res = Val::Tuple(vec![d.clone(), Val::Seq(vec![b.clone()])]);
+                            match res {
+                                Ok(r) if r == want_res && saw == want_saw => {
+                                    ctx.count("closure_hops_as_expected");
+                                    ctx.count("arguments_as_expected");
+                                    ctx.count("returns_as_expected");
+                                }
+                                Ok(r) => ctx.violation(
+                                    "C10:closure-argument-or-result-not-in-negotiated-version",
+                                    &label,
+                                    mkj("via_cb", format!("implementation saw {:?}; caller received (result, [closure argument]) = {}", saw.iter().map(|x| format!("{}={}", x.0, model::val_brief(&x.1, 120))).collect::<Vec<_>>(), model::val_brief(&r, 300))),
+                                ),
+                                Err(pmsg) => ctx.violation("C10:call-panicked", &label, mkj("via_cb", format!("call panicked: {}", pmsg))),
+                            }
+                            // fut
+                            ctx.eval();
+                            seen.lock().unwrap().clear();
+                            let res = call(&Op::Fut(vi.clone()));
+                            let saw: Vec<Val> = seen.lock().unwrap().iter().map(|x| x.1.clone()).collect();
+                            ctx.distinct(&format!("{}|fut|{}", label, model::val_class(&vi)));
+                            match res {
+                                Ok(r) if r == b && saw == vec![a.clone()] => {
+                                    ctx.count("future_outputs_as_expected");
+                                    ctx.count("returns_as_expected");
+                                }
+                                Ok(r) => ctx.violation("C10:future-output-not-in-negotiated-version", &label, mkj("fut", format!("implementation saw {}; caller received {}", model::val_brief(&Val::Seq(saw), 200), model::val_brief(&r, 300)))),
+                                Err(pmsg) => ctx.violation("C10:call-panicked", &label, mkj("fut", format!("call panicked: {}", pmsg))),
+                            }
+                            // mk_cb: closure created by the implementation, called by the caller
+                            ctx.eval();
+                            seen.lock().unwrap().clear();
+                            let res = call(&Op::MkCb(vi.clone()));
+                            let saw: Vec<Val> = seen.lock().unwrap().iter().map(|x| x.1.clone()).collect();
+                            ctx.distinct(&format!("{}|mk_cb|{}", label, model::val_class(&vi)));
+                            match res {
+                                Ok(r) if r == b && saw == vec![a.clone()] => {
+                                    ctx.count("returned_closures_as_expected");
+                                    ctx.count("returns_as_expected");
+                                }
+                                Ok(r) => ctx.violation("C10:returned-closure-not-in-negotiated-version", &label, mkj("mk_cb", format!("implementation-side closure saw {}; caller received {}", model::val_brief(&Val::Seq(saw), 200), model::val_brief(&r, 300)))),
+                                Err(pmsg) => ctx.violation("C10:call-panicked", &label, mkj("mk_cb", format!("call panicked: {}", pmsg))),
+                            }
+                        }
+                    }
+                }
+            }
             // ---- return values produced by the implementation
             ctx.eval();
             let seed = rng.next_u64();
@@ -272,6 +372,107 @@ pub mod evo_a {
         fn changed_arg_count(&self, x: u32) -> u32;
         fn changed_arg_type(&self, x: u32) -> u32;
         fn changed_ret_type(&self, x: u32) -> u32;
+        fn cb_ret_changed(&self, f: &dyn Fn(u32) -> u32) -> u32;
+        fn cb_arg_changed(&self, f: &dyn Fn(u32) -> u32) -> u32;
+        fn fut_out_changed(&self, x: u32) -> std::pin::Pin<Box<dyn std::future::Future<Output = u32>>>;
+        fn boxed_cb_ret_changed(&self, f: Box<dyn Fn(u32) -> u32>) -> u32;
+    }
+}
+pub mod evo_f {
+    use super::*;
+    #[savefile_abi_exportable(version = 0)]
+    pub trait Evolve {
+        fn common(&self, x: u32) -> u32;
+        fn cb_ret_changed(&self, f: &dyn Fn(u32) -> String) -> u32;
+    }
+}
+pub mod evo_g {
+    use super::*;
+    #[savefile_abi_exportable(version = 0)]
+    pub trait Evolve {
+        fn common(&self, x: u32) -> u32;
+        fn cb_arg_changed(&self, f: &dyn Fn(String) -> u32) -> u32;
+    }
+}
+pub mod evo_h {
+    use super::*;
+    #[savefile_abi_exportable(version = 0)]
+    pub trait Evolve {
+        fn common(&self, x: u32) -> u32;
+        fn fut_out_changed(&self, x: u32) -> std::pin::Pin<Box<dyn std::future::Future<Output = String>>>;
+    }
+}
+pub mod evo_i {
+    use super::*;
+    #[savefile_abi_exportable(version = 0)]
+    pub trait Evolve {
+        fn common(&self, x: u32) -> u32;
+        fn boxed_cb_ret_changed(&self, f: Box<dyn Fn(u32) -> String>) -> u32;
+    }
+}
+// nested interfaces (boxed trait object arguments) whose method sets differ between the two sides
+pub mod objs_small {
+    use super::*;
+    #[savefile_abi_exportable(version = 0)]
+    pub trait Obj {
+        fn get(&self) -> u32;
+    }
+}
+pub mod objs_big {
+    use super::*;
+    #[savefile_abi_exportable(version = 0)]
+    pub trait Obj {
+        fn get(&self) -> u32;
+        fn extra(&self) -> u32;
+    }
+}
+pub struct ObjImpl(pub u32);
+impl objs_small::Obj for ObjImpl {
+    fn get(&self) -> u32 {
+        self.0
+    }
+}
+impl objs_big::Obj for ObjImpl {
+    fn get(&self) -> u32 {
+        self.0
+    }
+    fn extra(&self) -> u32 {
+        self.0 + 100
+    }
+}
+pub mod nest_small {
+    use super::objs_small::Obj;
+    use super::*;
+    #[savefile_abi_exportable(version = 0)]
+    pub trait Nest {
+        fn take_obj(&self, o: Box<dyn Obj>) -> u32;
+        fn give_obj(&self, x: u32) -> Box<dyn Obj>;
+    }
+}
+pub mod nest_big {
+    use super::objs_big::Obj;
+    use super::*;
+    #[savefile_abi_exportable(version = 0)]
+    pub trait Nest {
+        fn take_obj(&self, o: Box<dyn Obj>) -> u32;
+        fn give_obj(&self, x: u32) -> Box<dyn Obj>;
+    }
+}
+pub struct NestImpl;
+impl nest_small::Nest for NestImpl {
+    fn take_obj(&self, o: Box<dyn objs_small::Obj>) -> u32 {
+        o.get() + 1
+    }
+    fn give_obj(&self, x: u32) -> Box<dyn objs_small::Obj> {
+        Box::new(ObjImpl(x))
+    }
+}
+impl nest_big::Nest for NestImpl {
+    fn take_obj(&self, o: Box<dyn objs_big::Obj>) -> u32 {
+        o.get() + 1
+    }
+    fn give_obj(&self, x: u32) -> Box<dyn objs_big::Obj> {
+        Box::new(ObjImpl(x))
     }
 }
 pub mod evo_b {
@@ -322,6 +523,50 @@ impl evo_a::Evolve for EvoImpl {
     }
     fn changed_ret_type(&self, x: u32) -> u32 {
         x
+    }
+    fn cb_ret_changed(&self, f: &dyn Fn(u32) -> u32) -> u32 {
+        f(1)
+    }
+    fn cb_arg_changed(&self, f: &dyn Fn(u32) -> u32) -> u32 {
+        f(2)
+    }
+    fn fut_out_changed(&self, x: u32) -> std::pin::Pin<Box<dyn std::future::Future<Output = u32>>> {
+        Box::pin(async move { x })
+    }
+    fn boxed_cb_ret_changed(&self, f: Box<dyn Fn(u32) -> u32>) -> u32 {
+        f(3)
+    }
+}
+impl evo_f::Evolve for EvoImpl {
+    fn common(&self, x: u32) -> u32 {
+        x + 1
+    }
+    fn cb_ret_changed(&self, f: &dyn Fn(u32) -> String) -> u32 {
+        f(1).len() as u32
+    }
+}
+impl evo_g::Evolve for EvoImpl {
+    fn common(&self, x: u32) -> u32 {
+        x + 1
+    }
+    fn cb_arg_changed(&self, f: &dyn Fn(String) -> u32) -> u32 {
+        f("two".to_string())
+    }
+}
+impl evo_h::Evolve for EvoImpl {
+    fn common(&self, x: u32) -> u32 {
+        x + 1
+    }
+    fn fut_out_changed(&self, x: u32) -> std::pin::Pin<Box<dyn std::future::Future<Output = String>>> {
+        Box::pin(async move { x.to_string() })
+    }
+}
+impl evo_i::Evolve for EvoImpl {
+    fn common(&self, x: u32) -> u32 {
+        x + 1
+    }
+    fn boxed_cb_ret_changed(&self, f: Box<dyn Fn(u32) -> String>) -> u32 {
+        f(3).len() as u32
     }
 }
 impl evo_b::Evolve for EvoImpl {
@@ -385,6 +630,57 @@ fn method_presence(ctx: &mut Ctx) {
         }
         other => ctx.violation("C10:method-set-difference-prevents-connecting", "Evolve:A->B", J::obj(vec![("observed", J::s(format!("{:?}", other.map(|x| x.map(|_| "conn")))))])),
     }
+    // nested interfaces with different method sets: connecting and the common methods must work
+    {
+        use nest_big::Nest as _;
+        use nest_small::Nest as _;
+        use objs_big::Obj as _;
+        use objs_small::Obj as _;
+        ctx.eval();
+        let r = vcore::util::catch(|| unsafe { AbiConnection::<dyn nest_small::Nest>::from_boxed_trait_for_test(<dyn nest_big::Nest as AbiExportable>::ABI_ENTRY, Box::new(NestImpl) as Box<dyn nest_big::Nest>) });
+        match r {
+            Ok(Ok(conn)) => {
+                ctx.count("nested_method_presence_connects");
+                ctx.distinct("presence|nested|small-caller");
+                let a = vcore::util::catch(std::panic::AssertUnwindSafe(|| conn.take_obj(Box::new(ObjImpl(5)))));
+                let b = vcore::util::catch(std::panic::AssertUnwindSafe(|| conn.give_obj(9).get()));
+                if a == Ok(6) && b == Ok(9) {
+                    ctx.count("nested_common_methods_work");
+                } else {
+                    ctx.violation("C10:nested-common-method-fails", "Nest:small->big", J::obj(vec![("observed", J::s(format!("take_obj -> {:?}, give_obj().get() -> {:?}", a, b)))]));
+                }
+            }
+            other => ctx.violation(
+                "C10:nested-method-set-difference-prevents-connecting",
+                "Nest:small->big",
+                J::obj(vec![("caller", J::s("trait Nest { fn take_obj(&self, o: Box<dyn Obj>) -> u32; fn give_obj(&self, x: u32) -> Box<dyn Obj>; } with trait Obj { fn get(&self) -> u32; }")), ("implementation", J::s("same, but its trait Obj also has fn extra(&self) -> u32")), ("observed", J::s(format!("{:?}", other.map(|x| x.map(|_| "conn")))))]),
+            ),
+        }
+        ctx.eval();
+        let r = vcore::util::catch(|| unsafe { AbiConnection::<dyn nest_big::Nest>::from_boxed_trait_for_test(<dyn nest_small::Nest as AbiExportable>::ABI_ENTRY, Box::new(NestImpl) as Box<dyn nest_small::Nest>) });
+        match r {
+            Ok(Ok(conn)) => {
+                ctx.count("nested_method_presence_connects");
+                ctx.distinct("presence|nested|big-caller");
+                let a = vcore::util::catch(std::panic::AssertUnwindSafe(|| conn.take_obj(Box::new(ObjImpl(5)))));
+                let b = vcore::util::catch(std::panic::AssertUnwindSafe(|| conn.give_obj(9).get()));
+                if a == Ok(6) && b == Ok(9) {
+                    ctx.count("nested_common_methods_work");
+                } else {
+                    ctx.violation("C10:nested-common-method-fails", "Nest:big->small", J::obj(vec![("observed", J::s(format!("take_obj -> {:?}, give_obj().get() -> {:?}", a, b)))]));
+                }
+                match vcore::util::catch(std::panic::AssertUnwindSafe(|| conn.give_obj(9).extra())) {
+                    Err(m) if m.contains("extra") => ctx.count("missing_method_panics_with_name"),
+                    other => ctx.violation("C10:missing-method-not-a-clear-panic", "Nest:big->small", J::obj(vec![("observed", J::s(format!("{:?}", other)))])),
+                }
+            }
+            other => ctx.violation(
+                "C10:nested-method-set-difference-prevents-connecting",
+                "Nest:big->small",
+                J::obj(vec![("caller", J::s("trait Nest { fn take_obj(&self, o: Box<dyn Obj>) -> u32; fn give_obj(&self, x: u32) -> Box<dyn Obj>; } with trait Obj { fn get(&self) -> u32; fn extra(&self) -> u32; }")), ("implementation", J::s("same, but its trait Obj has only fn get(&self) -> u32")), ("observed", J::s(format!("{:?}", other.map(|x| x.map(|_| "conn")))))]),
+            ),
+        }
+    }
     // incompatible signatures must be rejected at connection time
     macro_rules! incompatible {
         ($m:ident, $what:expr) => {{
@@ -403,4 +699,8 @@ fn method_presence(ctx: &mut Ctx) {
     incompatible!(evo_c, "argument count changed");
     incompatible!(evo_d, "argument type changed");
     incompatible!(evo_e, "return type changed");
+    incompatible!(evo_f, "return type of a closure argument changed");
+    incompatible!(evo_g, "argument type of a closure argument changed");
+    incompatible!(evo_h, "output type of a returned future changed");
+    incompatible!(evo_i, "return type of a boxed closure argument changed");
 }
